@@ -90,6 +90,14 @@ def handle (j : Json) : Except String Json := do
       | .arr #[.str "seqcrash", .str victim, c] =>
         fs := runKilled mode size (fun (v : Nat) => v) victim (← jNat c) fs inputs
         outs := outs.push (Json.mkObj [("fs", snapshot fs keys)])
+      | .arr #[.str "plant", ents] =>
+        -- files put into the directory from outside, between runs
+        for e in ← jArr ents do
+          match e with
+          | .arr #[.str k, .str "final", w, p] => fs := fs.set (.final k) (.data (← jNat w) (← jNat p))
+          | .arr #[.str k, .str "tmp", w, p] => fs := fs.set (.tmp k) (.data (← jNat w) (← jNat p))
+          | _ => throw s!"bad plant entry {e.compress}"
+        outs := outs.push (Json.mkObj [("fs", snapshot fs keys)])
       | .arr #[.str "run"] =>
         match parallelise Gen.refusesDuplicateKeys mode size (fun (v : Nat) => v) fs inputs with
         | none =>
